@@ -24,7 +24,7 @@ ASSUMPTIONS = [
     "fractions.Fraction and decimal.Decimal are exact",
     "msdparser tokenizes '#KEY:value;' texts without the excluded metacharacters correctly",
 ]
-MONITORS = ["tick_text", "construct", "inexact", "arith", "history", "beatvalues", "timing_string", "timingdata"]
+MONITORS = ["tick_text", "construct", "inexact", "arith", "history", "beatvalues", "beatvalues_inplace_edit", "timing_string", "timingdata"]
 REQUIRED = ["two_events_on_one_beat", "arith_mixed_int", "arith_mixed_fraction", "inexact_half_tick_boundary", "timing_string_linebreaks"]
 
 TICK_LIMIT = 96000
@@ -284,6 +284,45 @@ def check(ctx, case):
                     ok = False
         ctx.expect(ok and back == bv, "beatvalues:roundtrip", text=text, back=repr(back))
         ctx.expect(str(back) == text, "beatvalues:restringify", text=text, again=str(back))
+        # the same list object edited in place after it has been written once: the text must follow
+        import random as _r
+
+        rng = _r.Random(len(text) * 7 + len(evs))
+        extra = BeatValue(Beat(7, 48), Decimal("9.5"))
+        for _ in range(3):
+            op = rng.choice(["pop", "remove", "reverse", "clear", "sort", "iadd", "imul", "insert", "append", "extend", "setitem", "delitem"])
+            if op in ("pop", "remove", "setitem", "delitem") and not bv:
+                op = "append"
+            if op == "pop":
+                bv.pop(rng.randrange(len(bv)))
+            elif op == "remove":
+                bv.remove(bv[rng.randrange(len(bv))])
+            elif op == "reverse":
+                bv.reverse()
+            elif op == "clear":
+                bv.clear()
+            elif op == "sort":
+                bv.sort()
+            elif op == "iadd":
+                bv += [extra]
+            elif op == "imul":
+                bv *= 2
+            elif op == "insert":
+                bv.insert(0, extra)
+            elif op == "append":
+                bv.append(extra)
+            elif op == "extend":
+                bv.extend([extra, extra])
+            elif op == "setitem":
+                bv[rng.randrange(len(bv))] = extra
+            else:
+                del bv[rng.randrange(len(bv))]
+            ctx.mon("beatvalues_inplace_edit")
+            t2 = str(bv)
+            b2 = BeatValues.from_str(t2)
+            if not (list(b2) == list(bv)):
+                ctx.violation(f"beatvalues:text-stale-after-{op}", {"op": op, "text": t2, "list": repr(bv)[:300]})
+                break
         return
 
     if kind in ("timing_string", "timingdata"):
